@@ -23,7 +23,7 @@ ASSUME TLCSet(1, {}) /\ TLCSet(2, {}) /\ TLCSet(3, {}) /\ TLCSet(4, {}) /\ TLCSe
 
 Has(e, k) == k \in DOMAIN e
 CfgOf(e) ==
-  [watcher |-> e.mwatcher, role |-> e.mrole, prep |-> e.prep, chain |-> e.chain, d0 |-> e.d0, mines |-> e.mines, restart |-> e.restart,
+  [watcher |-> e.mwatcher, role |-> e.mrole, prep |-> e.prep, chain |-> e.chain, d0 |-> e.d0, mines |-> e.mines, restart |-> e.restart, lbtc |-> e.lbtc,
    faults |-> {e.faults[i] : i \in 1..Len(e.faults)},
    entry |-> [p \in Drivers |-> IF Has(e.mprocs, p) THEN e.mprocs[p] ELSE "-"]]
 
@@ -59,13 +59,14 @@ Consume ==
                /\ LET nx == {x \in UNION {MacroOf(m, e.p) : m \in ms} : Matches(x, e.all)} IN
                     /\ ms' = nx
                     /\ TLCSet(6, TLCGet(6) + (IF ms # {} THEN 1 ELSE 0))
-                    /\ (ms # {} /\ nx = {} => TLCSet(2, TLCGet(2) \cup {[t |-> e.t, i |-> e.i, p |-> e.p, name |-> rs.name]}))
+                    /\ (ms # {} /\ nx = {} => TLCSet(2, TLCGet(2) \cup {[t |-> e.t, i |-> e.i, p |-> e.p, name |-> rs.name, obs |-> e.all,
+                                                                   exp |-> SetToSeq({[q \in {r \in Procs : x.started[r]} |-> MStat(x, q)] : x \in UNION {MacroOf(m, e.p) : m \in ms}})]}))
                /\ UNCHANGED <<open, dl, rs>>
           [] e.ev = "deadlock" -> dl' = e.sig /\ UNCHANGED <<ms, open, rs>>
           [] e.ev = "end" ->
                /\ IF e.unsettled THEN TLCSet(5, TLCGet(5) \cup {[t |-> e.t, name |-> rs.name]})
                   ELSE /\ (dl # "" \/ open # {} =>
-                             TLCSet(1, TLCGet(1) \cup {[sig |-> "C18|deadlock|" \o rs.watcher \o "|" \o rs.role \o "|" \o
+                             TLCSet(1, TLCGet(1) \cup {[sig |-> "C18|deadlock|" \o rs.wkind \o "|" \o
                                                               (IF dl # "" THEN dl ELSE "unreturned"), t |-> e.t, name |-> rs.name]}))
                        /\ (Has(rs, "expect") /\ rs.expect /\ dl = "" /\ open = {} => TLCSet(3, TLCGet(3) \cup {[t |-> e.t, name |-> rs.name]}))
                        /\ (ms # {} /\ (dl # "" \/ open # {}) /\ (\A m \in ms : Unreturned(m) = {}) =>
